@@ -112,7 +112,7 @@ def b! (s : String) : Bool := s = "1"
 def main : List String → IO UInt32
   | ["trace", a, l, c1, c2, i, ts, li, wn] =>
     runTrace { maxAttempts := nat! a, convLag := nat! l, ctorLag1 := nat! c1, ctorLag2 := nat! c2, idleLag := nat! i,
-               triggerStrict := b! ts, lagInclusive := b! li, lagInverted := false, writeNext := b! wn }
+               triggerStrict := b! ts, lagInclusive := b! li, lagInverted := false, writeNext := b! wn, gateAfterConv := true }
   | ["trace"] => runTrace Params.code
   | _ => do IO.println "usage: driver tsc trace [maxAttempts convLag ctorLag1 ctorLag2 idleLag triggerStrict lagInclusive writeNext]"; return 2
 
